@@ -155,6 +155,7 @@ func e2Health(run *vlib.Run) {
 
 // e2Prepared is a batch of cases generated, compiled and ready to be driven.
 type e2Prepared struct {
+	py         *e2.PyBatch
 	batch      *e2.Batch
 	work       string
 	ids        []string
@@ -164,6 +165,9 @@ type e2Prepared struct {
 }
 
 func (p *e2Prepared) Close() {
+	if p.py != nil {
+		p.py.Close()
+	}
 	p.batch.Close()
 	removeAll(p.work)
 }
@@ -176,6 +180,13 @@ func e2Prepare(run *vlib.Run, prefix string, cases []schemaCase, out e2.OutputSp
 		return nil, err
 	}
 	p.batch = batch
+	if out.Python != nil {
+		py, err := e2.NewPyBatch(p.work + "/py")
+		if err != nil {
+			return nil, err
+		}
+		p.py = py
+	}
 	p.validators = make([]*smodel.Validator, len(cases))
 	p.usable = make([]bool, len(cases))
 	for i, c := range cases {
@@ -200,6 +211,12 @@ func e2Prepare(run *vlib.Run, prefix string, cases []schemaCase, out e2.OutputSp
 			if err := batch.Add(id, g.files); err != nil {
 				p.Close()
 				return nil, err
+			}
+			if p.py != nil {
+				if err := p.py.Add(id, g.files); err != nil {
+					p.Close()
+					return nil, err
+				}
 			}
 			p.usable[i] = true
 		}
